@@ -7,6 +7,7 @@ package cmd
 import (
 	"os"
 	"path"
+	"path/filepath"
 	"regexp"
 
 	"github.com/coreruleset/crs-toolchain/v2/regex"
@@ -255,11 +256,11 @@ func SpecWithHeader(lines []string, has bool) []string {
 //@   ensures[C15,C09] check-never-writes: implies(checkOnly, fsWrites() == old(fsWrites()))
 //@   ensures[C15] at-most-one-write: fsWrites() <= old(fsWrites())+1
 //@   ensures[C15] writes-own-path: implies(fsWrites() > old(fsWrites()), lastWritePath() == filePath)
-//@   ensures[C09,C16] writes-formatted-bytes: implies(fsWrites() > old(fsWrites()), called(Join) && lastWriteData() == resultOf(Join, 0))
-//@   ensures[C09,C10] formatted-text: implies(called(Join), resultOf(Join, 0) == utils.OpaqueJoinLines(SpecFmtEof(SpecWithHeader(SpecMapLines(scanLines(scanner), len(scanLines(scanner))), SpecHasHeader(SpecMapLines(scanLines(scanner), len(scanLines(scanner))))))))
-//@   ensures[C16] error-means-no-write: implies(r != nil && !called(WriteFile), fsWrites() == old(fsWrites()))
-//@   ensures[C09] check-verdict: implies(checkOnly && called(findUpperCaseCharacterClassOnIgnoreCaseFlag) && resultOf(ReadFile, 1) == nil, (r != nil) == (lastRead() != resultOf(Join, 0) || resultOf(findUpperCaseCharacterClassOnIgnoreCaseFlag, 0)))
-//@   ensures[C09,C16] write-reported: implies(!checkOnly && called(WriteFile), (r != nil) == (resultOf(WriteFile, 0) != nil))
+//@   checks[C09,C16] writes-formatted-bytes: implies(fsWrites() > old(fsWrites()), called(Join) && lastWriteData() == resultOf(Join, 0))
+//@   checks[C09,C10] formatted-text: implies(called(Join), resultOf(Join, 0) == utils.OpaqueJoinLines(SpecFmtEof(SpecWithHeader(SpecMapLines(scanLines(scanner), len(scanLines(scanner))), SpecHasHeader(SpecMapLines(scanLines(scanner), len(scanLines(scanner))))))))
+//@   checks[C16] error-means-no-write: implies(r != nil && !called(WriteFile), fsWrites() == old(fsWrites()))
+//@   checks[C09] check-verdict: implies(checkOnly && called(findUpperCaseCharacterClassOnIgnoreCaseFlag) && resultOf(ReadFile, 1) == nil, (r != nil) == (lastRead() != resultOf(Join, 0) || resultOf(findUpperCaseCharacterClassOnIgnoreCaseFlag, 0)))
+//@   checks[C09,C16] write-reported: implies(!checkOnly && called(WriteFile), (r != nil) == (resultOf(WriteFile, 0) != nil))
 //@   loop 0 invariant[C09,C10] 0 <= scanPos(scanner) && scanPos(scanner) <= len(scanLines(scanner))
 //@   loop 0 invariant[C09,C10] indent == SpecDepthAt(scanLines(scanner), scanPos(scanner)) && indent >= 0
 //@   loop 0 invariant[C09,C10] lines == SpecMapLines(scanLines(scanner), scanPos(scanner))
@@ -368,9 +369,9 @@ func LemmaFirstId(ruleId string, lines [][]byte, i int) {
 //@   modifies fsWrites
 //@   use entry LemmaFirstId(ruleId, utils.OpaqueSplitNL(fileContent(filePath)), 0)
 //@   ensures[C11,C15,C16] one-write-own-path: fsWrites() == old(fsWrites())+1 && lastWritePath() == filePath
-//@   ensures[C11,C12] addressed-line: SpecIsTarget(ruleId, chainOffset, utils.OpaqueSplitNL(old(fileContent(filePath))), index)
-//@   ensures[C11,C12] line-has-rx-operand: reMatch(regex.RuleRxRegex, string(utils.OpaqueSplitNL(old(fileContent(filePath)))[index]))
-//@   ensures[C11,C12] only-operand-replaced: lastWriteData() == utils.OpaqueJoinNL(SpecSetLine(utils.OpaqueSplitNL(old(fileContent(filePath))), index, reGroup(regex.RuleRxRegex, string(utils.OpaqueSplitNL(old(fileContent(filePath)))[index]), 1)+newRegex+reGroup(regex.RuleRxRegex, string(utils.OpaqueSplitNL(old(fileContent(filePath)))[index]), 3)))
+//@   checks[C11,C12] addressed-line: SpecIsTarget(ruleId, chainOffset, utils.OpaqueSplitNL(old(fileContent(filePath))), index)
+//@   checks[C11,C12] line-has-rx-operand: reMatch(regex.RuleRxRegex, string(utils.OpaqueSplitNL(old(fileContent(filePath)))[index]))
+//@   checks[C11,C12] only-operand-replaced: lastWriteData() == utils.OpaqueJoinNL(SpecSetLine(utils.OpaqueSplitNL(old(fileContent(filePath))), index, reGroup(regex.RuleRxRegex, string(utils.OpaqueSplitNL(old(fileContent(filePath)))[index]), 1)+newRegex+reGroup(regex.RuleRxRegex, string(utils.OpaqueSplitNL(old(fileContent(filePath)))[index]), 3)))
 //@   loop 0 invariant 0 <= rangeIndex0 && rangeIndex0 <= len(lines) && implies(rangeIndex0 > 0, index == rangeIndex0-1) && implies(rangeIndex0 == 0, index == 0)
 //@   loop 0 invariant implies(!foundRule, SpecFirstId(ruleId, lines, 0) >= rangeIndex0 && chainCount == 0)
 //@   loop 0 invariant implies(foundRule, SpecFirstId(ruleId, lines, 0) < rangeIndex0 && chainOffset != 0 && chainCount < chainOffset && chainCount == SpecCountSec(lines, SpecFirstId(ruleId, lines, 0)+1, rangeIndex0))
@@ -384,9 +385,9 @@ func LemmaFirstId(ruleId string, lines [][]byte, i int) {
 //@   requires crs-layout: !SpecIsIdLine(ruleId, utils.OpaqueSplitNL(fileContent(filePath))[0])
 //@   use entry LemmaFirstId(ruleId, utils.OpaqueSplitNL(fileContent(filePath)), 0)
 //@   ensures[C12,C15] reads-only: fsWrites() == old(fsWrites())
-//@   ensures addressed-line: SpecIsTarget(ruleId, chainOffset, utils.OpaqueSplitNL(fileContent(filePath)), index)
-//@   ensures line-has-rx-operand: reMatch(regex.RuleRxRegex, string(utils.OpaqueSplitNL(fileContent(filePath))[index]))
-//@   ensures operand: r == reGroup(regex.RuleRxRegex, string(utils.OpaqueSplitNL(fileContent(filePath))[index]), 2)
+//@   checks addressed-line: SpecIsTarget(ruleId, chainOffset, utils.OpaqueSplitNL(fileContent(filePath)), index)
+//@   checks line-has-rx-operand: reMatch(regex.RuleRxRegex, string(utils.OpaqueSplitNL(fileContent(filePath))[index]))
+//@   checks operand: r == reGroup(regex.RuleRxRegex, string(utils.OpaqueSplitNL(fileContent(filePath))[index]), 2)
 //@   loop 0 invariant 0 <= rangeIndex0 && rangeIndex0 <= len(lines) && implies(rangeIndex0 > 0, index == rangeIndex0-1) && implies(rangeIndex0 == 0, index == 0)
 //@   loop 0 invariant implies(!foundRule, SpecFirstId(ruleId, lines, 0) >= rangeIndex0 && chainCount == 0)
 //@   loop 0 invariant implies(foundRule, SpecFirstId(ruleId, lines, 0) < rangeIndex0 && chainOffset != 0 && chainCount < chainOffset && chainCount == SpecCountSec(lines, SpecFirstId(ruleId, lines, 0)+1, rangeIndex0))
@@ -483,3 +484,54 @@ func SpecRoot(start string) string {
 //@ directive[C17] no-effect cmd.createFormatCommand partialread
 //@ directive[C17] no-effect cmd.createRenumberTestsCommand partialread
 //@ directive[C17] no-effect cmd.createChoreUpdateCopyrightCommand partialread
+
+// ---- rules file lookup (C11 C16) --------------------------------------------------------
+
+func OpaqueGlob(pattern string) []string { m, _ := filepath.Glob(pattern); return m }
+
+//@ extern filepath.Glob
+//@   params pattern
+//@   results matches err
+//@   ensures implies(err == nil, matches == OpaqueGlob(pattern))
+
+// processRegexForCompare: a rules file that is missing or ambiguous is an error (not a
+// silent success), nothing is ever written, and otherwise the verdict is compareRegex's.
+//@ contract processRegexForCompare
+//@   tags C16 C12 C15
+//@   opt trust-pre readCurrentRegex/crs-layout
+//@   results r
+//@   requires id-shape: len(ruleId) >= 3
+//@   checks[C16] lookup-failure-reported: implies(called(Glob) && (resultOf(Glob, 1) != nil || len(resultOf(Glob, 0)) != 1), r != nil)
+//@   ensures[C15] reads-only: fsWrites() == old(fsWrites())
+//@   checks[C12] verdict: implies(called(compareRegex), r == resultOf(compareRegex, 0))
+
+// processRule: the rules file is looked up before anything is written; zero or several
+// matches are fatal (the function does not return), so on return exactly the one matching
+// file was handed to updateRegex.
+//@ contract processRule
+//@   tags C11 C16 C15
+//@   opt trust-pre updateRegex/crs-layout
+//@   requires id-shape: len(ruleId) >= 3
+//@   modifies fsWrites
+//@   checks[C16,C11] unique-rules-file: called(updateRegex) && len(resultOf(Glob, 0)) == 1 && resultOf(Glob, 1) == nil
+//@   checks[C15,C11] writes-only-that-file: lastWritePath() == resultOf(Glob, 0)[0]
+//@   ensures[C15,C11] one-write: fsWrites() == old(fsWrites())+1
+
+// ---- --all walks derive id and offset from the file name with the same grammar (C18) and
+// never narrow an offset above 255 (conv-range); a too large offset aborts the walk (C16) ----
+//@ contract performUpdate#0
+//@   tags C18 C16 C08
+//@   opt conv-range C18 C16
+//@   results r
+//@   modifies fsWrites
+//@   checks[C18,C16] large-offset-aborts: implies(called(ParseUint) && resultOf(ParseUint, 1) != nil && len(reGroup(regex.RuleIdFileNameRegex, resultOf(Name, 0), 2)) > 0, r != nil)
+//@   checks[C18] same-grammar: implies(called(processRule), reMatch(regex.RuleIdFileNameRegex, resultOf(Name, 0)))
+//@   checks[C15] only-ra-files: implies(called(processRule), resultOf(Ext, 0) == ".ra")
+
+//@ contract performCompare#0
+//@   tags C18 C16 C08 C15
+//@   opt conv-range C18 C16
+//@   results r
+//@   checks[C18,C16] large-offset-aborts: implies(called(ParseUint) && resultOf(ParseUint, 1) != nil && len(reGroup(regex.RuleIdFileNameRegex, resultOf(Name, 0), 2)) > 0, r != nil)
+//@   checks[C18] same-grammar: implies(called(processRegexForCompare), reMatch(regex.RuleIdFileNameRegex, resultOf(Name, 0)))
+//@   ensures[C15] reads-only: fsWrites() == old(fsWrites())
